@@ -49,19 +49,45 @@ func NoHang(x *Exec, prop string) []Violation {
 	return []Violation{{Prop: prop, Rule: "no-hang", Sig: "hang:" + hangSig(x.HangInfo), Detail: strings.Join(x.HangInfo, "; ")}}
 }
 
+// hangSig builds a stable signature for a set of stuck threads: the functions of the code
+// under test in which threads are stuck (sorted, unique, without file and line) and the
+// harness wait points of the stuck actors.
 func hangSig(info []string) string {
-	var parts []string
+	sut, app := map[string]bool{}, map[string]bool{}
 	for _, h := range info {
-		// "name kind@site": keep the site, drop counters in names
 		f := strings.Fields(h)
-		if len(f) == 2 {
-			parts = append(parts, stripNums(f[0])+"@"+f[1])
+		if len(f) != 2 {
+			continue
+		}
+		where := f[1] // kind@site
+		i := strings.IndexByte(where, '@')
+		if i < 0 {
+			continue
+		}
+		kind, site := where[:i], where[i+1:]
+		switch {
+		case strings.Contains(site, ".go:"):
+			sut[site[strings.LastIndexByte(site, ':')+1:]] = true
+		case kind == "carrier":
+			// carrier operation of a receive loop: c.recv:T0 -> c.recv
+			if j := strings.IndexByte(site, ':'); j > 0 {
+				site = site[:j]
+			}
+			sut[site] = true
+		default:
+			app[stripNums(site)] = true
 		}
 	}
-	if len(parts) > 3 {
-		parts = parts[:3]
+	return "sut=" + joinSorted(sut) + ";app=" + joinSorted(app)
+}
+
+func joinSorted(m map[string]bool) string {
+	var ks []string
+	for k := range m {
+		ks = append(ks, k)
 	}
-	return strings.Join(parts, ",")
+	sortStrings(ks)
+	return strings.Join(ks, ",")
 }
 
 func stripNums(s string) string {
